@@ -1,0 +1,6 @@
+//go:build !verif
+
+package appencryption
+
+// verifHook is a no-op unless the package is built with the verif build tag.
+func verifHook(string, any) {}
